@@ -33,7 +33,7 @@ type replay struct {
 }
 
 var hosts = []string{"api.com", "a.b-c.io", "graph.cdn.com"}
-var lits = []string{"users", "v1", "$batch", "report(1)", "a+b", "x.y", "items[0]", "q|r", "me"}
+var lits = []string{"users", "v1", "$batch", "report(1)", "a+b", "x.y", "items[0]", "q|r", "me", "Accounts", "Messages.json", "V4"}
 
 func genFlows(r *sim.Rand) []flowSpec {
 	n := r.Range(1, 3)
@@ -56,8 +56,8 @@ func genFlows(r *sim.Rand) []flowSpec {
 		if r.Chance(1, 25) {
 			u = "*"
 		}
-		if used[u] {
-			continue
+		if r.Chance(1, 3) && len(out) > 0 {
+			u = out[r.Intn(len(out))].URL // several flows on one URL (other method list): one filter group each
 		}
 		used[u] = true
 		f := flowSpec{Name: fmt.Sprintf("f%d", i), URL: u}
